@@ -93,6 +93,7 @@ class SymbolicRepr:
     parameters: dict[str, SymbolicParameter] = field(default_factory=dict)
     derived: dict[str, SymbolicFn] = field(default_factory=dict)
     reactions: dict[str, SymbolicReaction] = field(default_factory=dict)
+    readouts: dict[str, SymbolicFn] = field(default_factory=dict)
 
     def __repr__(self) -> str:
         """Return default representation."""
@@ -140,6 +141,9 @@ def _to_symbolic_repr(model: Model) -> SymbolicRepr:
                 for k, v in rxn.stoichiometry.items()
             },
         )
+
+    for k, readout in model.get_raw_readouts().items():
+        sym.readouts[k] = _fn_to_symbolic_repr(k, readout.fn, readout.args)
 
     if len(model._surrogates) > 0:  # noqa: SLF001
         msg = "Generating code for Surrogates not yet supported."
@@ -239,13 +243,15 @@ def generate_mxlpy_code_from_symbolic_repr(
     functions: dict[str, tuple[sympy.Expr, list[str]]] = {}
     # Names of the functions of derived quantities and reactions. The names generated
     # for initial assignments and stoichiometries must not be among them, nor repeat.
-    taken = {fn.fn_name for fn in model.derived.values()} | {
-        rxn.fn.fn_name for rxn in model.reactions.values()
-    }
+    # (and of readouts)
+    component_fns = [
+        *model.derived.values(),
+        *(rxn.fn for rxn in model.reactions.values()),
+        *model.readouts.values(),
+    ]
+    taken = {fn.fn_name for fn in component_fns}
 
-    _check_function_names(
-        [*model.derived.values(), *(rxn.fn for rxn in model.reactions.values())]
-    )
+    _check_function_names(component_fns)
 
     # Variables
     variable_source = []
@@ -300,6 +306,18 @@ def generate_mxlpy_code_from_symbolic_repr(
             )"""
         )
 
+    # Readouts
+    readout_source = []
+    for k, fn in model.readouts.items():
+        functions[fn.fn_name] = (fn.expr, fn.args)
+        readout_source.append(
+            f"""        .add_readout(
+                {k!r},
+                fn={fn.fn_name},
+                args={fn.args},
+            )"""
+        )
+
     # Surrogates
 
     # Combine all the sources
@@ -329,6 +347,8 @@ def generate_mxlpy_code_from_symbolic_repr(
         source.append("\n".join(derived_source))
     if len(reactions_source) > 0:
         source.append("\n".join(reactions_source))
+    if len(readout_source) > 0:
+        source.append("\n".join(readout_source))
     source.append("    )")
     return "\n".join(source)
 
